@@ -650,6 +650,7 @@ type wgenOpts struct {
 	shadowUse  bool // also use a shadowed module name outside the shadowing block (known finding: DependencyOrder)
 	vecInit    bool // allow vector-typed private-global initialisers (known finding: literal kinds)
 	negInit    bool // allow private-global initialisers that are not plain literals (e.g. -5i)
+	flatRet    bool // early `return` only outside loops and switches (C13: the inliner mishandles nested returns)
 }
 
 type wgen struct {
@@ -1470,10 +1471,10 @@ func (g *wgen) stmt(depth int) *wstmt {
 			g.f("continue-in-switch")
 		}
 		return &wstmt{k: "if", e: g.runtime(tBool, 2), body: []*wstmt{{k: "continue"}}}
-	case r < 92 && g.curRet == nil && g.inLoop == 0 && !g.inCont && depth < g.o.maxDepth:
+	case r < 92 && g.curRet == nil && g.inLoop == 0 && !g.inCont && depth < g.o.maxDepth && !(g.o.flatRet && g.inSwitch > 0):
 		g.f("early-return")
 		return &wstmt{k: "if", e: g.runtime(tBool, 2), body: []*wstmt{{k: "return"}}}
-	case r < 94 && g.curRet != nil && !g.inCont:
+	case r < 94 && g.curRet != nil && !g.inCont && !(g.o.flatRet && (g.inLoop > 0 || g.inSwitch > 0)):
 		g.f("early-return-value")
 		return &wstmt{k: "if", e: g.runtime(tBool, 2), body: []*wstmt{{k: "return", e: g.expr(g.curRet, 2)}}}
 	case r < 95 && !g.inCont:
